@@ -46,30 +46,43 @@ fn main() {
         tier.nshards,
         if cfg!(debug_assertions) { "debug" } else { "release" }
     ));
+    // safety net: a panic of the implementation outside a guarded call (every generated input is in range) is
+    // reported as a failing case of the property, not as a crash of the harness
+    let res = std::panic::catch_unwind(std::panic::AssertUnwindSafe(|| {
     match prop {
-        "C01" => c01::run(&mut out, &mut rng, &tier, "C01"),
-        "C02" => c01::run(&mut out, &mut rng, &tier, "C02"),
-        "C03" => c03::c03(&mut out, &mut rng, &tier),
-        "C10" => kmers::c10(&mut out, &mut rng, &tier),
-        "C11" => c11::c11(&mut out, &mut rng, &tier),
-        "C12" => c12::c12(&mut out, &mut rng, &tier),
-        "C13" => seqs::c13(&mut out, &mut rng, &tier),
-        "C14" => seqs::c14(&mut out, &mut rng, &tier),
-        "C15" => seqs::c15(&mut out, &mut rng, &tier),
-        "C17" => seqs::c17(&mut out, &mut rng, &tier),
-        "C18" => seqs::c18(&mut out, &mut rng, &tier),
-        "C19" => c19::c19(&mut out, &mut rng, &tier),
-        "C16" => c16::c16(&mut out, &mut rng, &tier),
-        "C07" => c07::c07(&mut out, &mut rng, &tier),
-        "C08" => c08::c08(&mut out, &mut rng, &tier),
-        "C09" => c09::c09(&mut out, &mut rng, &tier),
-        "C05" => c05::c05(&mut out, &mut rng, &tier),
-        "C06" => c05::c06_filter(&mut out, &mut rng, &tier),
-        "C20" => c20::c20(&mut out, &mut rng, &tier),
-        _ => {
-            eprintln!("unknown property {}", prop);
-            std::process::exit(2);
+            "C01" => c01::run(&mut out, &mut rng, &tier, "C01"),
+            "C02" => c01::run(&mut out, &mut rng, &tier, "C02"),
+            "C03" => c03::c03(&mut out, &mut rng, &tier),
+            "C10" => kmers::c10(&mut out, &mut rng, &tier),
+            "C11" => c11::c11(&mut out, &mut rng, &tier),
+            "C12" => c12::c12(&mut out, &mut rng, &tier),
+            "C13" => seqs::c13(&mut out, &mut rng, &tier),
+            "C14" => seqs::c14(&mut out, &mut rng, &tier),
+            "C15" => seqs::c15(&mut out, &mut rng, &tier),
+            "C17" => seqs::c17(&mut out, &mut rng, &tier),
+            "C18" => seqs::c18(&mut out, &mut rng, &tier),
+            "C19" => c19::c19(&mut out, &mut rng, &tier),
+            "C16" => c16::c16(&mut out, &mut rng, &tier),
+            "C07" => c07::c07(&mut out, &mut rng, &tier),
+            "C08" => c08::c08(&mut out, &mut rng, &tier),
+            "C09" => c09::c09(&mut out, &mut rng, &tier),
+            "C05" => c05::c05(&mut out, &mut rng, &tier),
+            "C06" => c05::c06_filter(&mut out, &mut rng, &tier),
+            "C20" => c20::c20(&mut out, &mut rng, &tier),
+            _ => {
+                eprintln!("unknown property {}", prop);
+                std::process::exit(2);
+            }
         }
+    }));
+    if res.is_err() {
+        let done = out.lines;
+        out.nt = true;
+        out.case(
+            "s.no_panic",
+            l(vec![V::N(seed as u128), V::N(tier.shard as u128), V::N(done as u128)]),
+            V::Bot,
+        );
     }
     let lines = out.lines;
     out.finish();
